@@ -618,6 +618,12 @@ def gen_cases(ctx, prop, n):
         if prop == "C06":
             opts = {"n_markets": rng.choice([1, 2, 3, 4]), "index": rng.random() < 0.5,
                     "steps": rng.choice([3, 5, 40, 105]) if i % 5 == 0 else rng.choice([2, 4, 6])}
+            if i % 3 == 1:
+                # session lengths differ, and some sessions (the first one included) have zero steps: "each
+                # session spans exactly its configured number of steps starting where the previous one ended"
+                lens = [rng.choice([0, 0, 1, 2, 3, 5]) for _ in range(4)]
+                opts["steps"] = (lambda k, lens=lens: lens[k % 4])
+                opts["n_sessions"] = rng.choice([2, 3, 4])
         elif prop == "C09":
             opts = {"n_normal": rng.choice([0, 1, 3, 6]), "n_hft": rng.choice([0, 1, 2, 4]),
                     "pSpoof": 0.02 if i % 7 == 0 else 0.0, "pResubmit": 0.02 if i % 11 == 0 else 0.0}
